@@ -18,10 +18,10 @@ EXTENDS Integers, Sequences, FiniteSets, TLC
 CONSTANTS MaxObs
 
 L0 == [obs |-> 0, rcache |-> 0, bwRecv |-> 0, bwSend |-> 0]
-Kinds == {"plainOK", "plainSepCon", "plainBadToken", "plainCtxWrite", "plainCancel", "plainExpire", "plainRst", "dupToken",
+Kinds == {"plainOK", "plainSepCon", "plainBadToken", "plainCtxWrite", "plainCancel", "plainExpire", "plainRst", "plainBodyFail", "dupToken",
           "bwUpOK", "bwUpCancel", "bwUpRefused", "bwDownOK", "bwDownAbandon", "bwDownStall",
           "obsOK", "obsCancel", "obsCancelRefused", "obsCancelGiveUp", "obsFail", "obsSilentCancel", "obsAckedCancel", "obsNotifyEtag", "obsNoObs205", "obsNoObs203",
-          "pingOK", "pingCancel", "pingAsyncOK", "pingForget", "pingForgetNoRoute", "pingWriteFail", "oneWay",
+          "pingOK", "pingCancel", "pingAsyncOK", "pingForget", "pingForgetNoRoute", "pingWriteFail", "kaMissed", "oneWay",
           "srvReq", "srvReqDup", "srvReqNon", "srvReqNoResp", "srvReqHijack", "srvBwUpAbandon", "srvBwDownAbandon", "srvBwDownRetry", "srvBwDownBadCont",
           "tickEarly", "tickBw", "tickLate"}
 Enabled(s, k) == CASE k = "obsOK" -> s.obs < MaxObs
